@@ -6,7 +6,7 @@
 From Coq.Strings Require Import Byte String.
 From Coq Require Import List NArith Bool Arith.
 Import ListNotations.
-From V Require Import lib.Bytes spec.RenderSpec model.Bufio model.RenderSkel.
+From V Require Import lib.Bytes spec.RenderSpec spec.RenderDestSpec model.Bufio model.RenderSkel model.RenderDest.
 Require Extraction.
 Require Import ExtrOcamlBasic.
 
@@ -16,10 +16,13 @@ Definition numn (b : bytes) : nat := N.to_nat (num b).
 Definition optn (b : bytes) : option N := match b with [] => None | _ => Some (num b) end.
 Definition flag (b : bytes) : bool := bytes_eqb b [x31].
 
-Record impl_obs := { i_res : bytes; i_got : bytes; i_log : list logent }.
+Record impl_obs := { i_res : bytes; i_got : bytes; i_log : list logent;
+                     (* a destination that is the caller's bufio.Writer: the caller's Flush result, how many of the
+                        calls in i_log happened during Render, calls seen by the caller's other destinations *)
+                     i_fres : bytes; i_nrender : nat; i_foreign : nat }.
 Record mach := { vals : list bytes; nodes : list node; ops : list fop;
                  envl : list (bytes * N * (bytes * option N));      (* (loop path key, oracle id) -> value *)
-                 jobsr : list (job fsink * option impl_obs);      (* newest first *)
+                 jobsr : list (job fsink * nat * option impl_obs); (* newest first; the nat: size of the caller's bufio.Writer, 0 = none *)
                  curlog : list logent }.
 
 (* the enclosing iteration indices, innermost first, as the harness writes them: "2.0." *)
@@ -93,7 +96,21 @@ Definition step (m : mach) (ins : bytes) : mach :=
                         j_sink0 := {| f_mode := 0%N; f_limit := 0; f_tripped := false; f_err := 0%N |};
                         j_choice := 0; j_choice2 := 0 |}
                  end in
-        {| vals := dropv 7 m; nodes := nodes m; ops := ops m; envl := envl m; jobsr := (j, None) :: jobsr m; curlog := [] |}
+        {| vals := dropv 7 m; nodes := nodes m; ops := ops m; envl := envl m; jobsr := (j, O, None) :: jobsr m; curlog := [] |}
+      else if Byte.eqb op x67 (* g  wrapsize cancel html mode limit errid choice choice2 : the same into the caller's bufio.Writer of that size *) then
+        let j := match nodes m with
+                 | Templ g body :: _ =>
+                     {| j_env := env_of (envl m); j_benv := benv_of (envl m); j_senv := nenv_of (envl m); j_cnt := nenv_of (envl m);
+                        j_cancel := optn (v 6 m); j_guard := g; j_body := body;
+                        j_html := flag (v 5 m);
+                        j_sink0 := {| f_mode := num (v 4 m); f_limit := numn (v 3 m); f_tripped := false; f_err := num (v 2 m) |};
+                        j_choice := numn (v 1 m); j_choice2 := numn (v 0 m) |}
+                 | _ =>
+                     {| j_env := env_of []; j_benv := benv_of []; j_senv := nenv_of []; j_cnt := nenv_of []; j_cancel := None; j_guard := false; j_body := []; j_html := false;
+                        j_sink0 := {| f_mode := 0%N; f_limit := 0; f_tripped := false; f_err := 0%N |};
+                        j_choice := 0; j_choice2 := 0 |}
+                 end in
+        {| vals := dropv 8 m; nodes := nodes m; ops := ops m; envl := envl m; jobsr := (j, numn (v 7 m), None) :: jobsr m; curlog := [] |}
       else if Byte.eqb op x63 (* c  direct offered accepted errid : one call the real destination saw *) then
         {| vals := dropv 4 m; nodes := nodes m; ops := ops m; envl := envl m; jobsr := jobsr m;
            curlog := curlog m ++ [LCall (flag (v 3 m)) (numn (v 2 m)) (numn (v 1 m))
@@ -103,7 +120,15 @@ Definition step (m : mach) (ins : bytes) : mach :=
       else if Byte.eqb op x4b (* K  res got : the implementation's observation of the newest job *) then
         {| vals := dropv 2 m; nodes := nodes m; ops := ops m; envl := envl m;
            jobsr := match jobsr m with
-                    | (j, _) :: r => (j, Some {| i_res := v 1 m; i_got := v 0 m; i_log := curlog m |}) :: r
+                    | (j, x, _) :: r => (j, x, Some {| i_res := v 1 m; i_got := v 0 m; i_log := curlog m; i_fres := []; i_nrender := 0; i_foreign := 0 |}) :: r
+                    | [] => []
+                    end;
+           curlog := [] |}
+      else if Byte.eqb op x6b (* k  res got fres nrender foreign : the same for a render into the caller's bufio.Writer *) then
+        {| vals := dropv 5 m; nodes := nodes m; ops := ops m; envl := envl m;
+           jobsr := match jobsr m with
+                    | (j, x, _) :: r => (j, x, Some {| i_res := v 4 m; i_got := v 3 m; i_log := curlog m; i_fres := v 2 m;
+                                                      i_nrender := numn (v 1 m); i_foreign := numn (v 0 m) |}) :: r
                     | [] => []
                     end;
            curlog := [] |}
@@ -120,8 +145,8 @@ Definition enc_marks (l : list nat) : bytes := concat (map (fun n => dec (N.of_n
 Definition run_all (cap : nat) (sw flusher : bool) (instrs : list bytes) : list bytes :=
   let m := fold_left step instrs {| vals := []; nodes := []; ops := []; envl := []; jobsr := []; curlog := [] |} in
   let js := rev (jobsr m) in
-  let obs := run_jobs fsink fsink_step cap sw flusher html_escape true true ([], []) (map fst js) in
-  concat (map (fun p => let '(o, (j, io)) := p in
+  let obs := run_jobs fsink fsink_step cap sw flusher html_escape true true ([], []) (map (fun p => fst (fst p)) js) in
+  concat (map (fun p => let '(o, (j, _, io)) := p in
                         (* the specification: the document and the program's own first failure *)
                         let '(d, de) := denote html_escape (j_env _ j) (j_benv _ j) (j_senv _ j) (j_cnt _ j) (j_cancel _ j) (Templ (j_guard _ j) (j_body _ j)) [] in
                         [enc_res (o_err o); o_out o; enc_log (o_log o); enc_marks (o_marks o);
@@ -130,10 +155,34 @@ Definition run_all (cap : nat) (sw flusher : bool) (instrs : list bytes) : list 
                          d; enc_res de])
               (combine obs js)).
 
+
+(* renders into the caller's bufio.Writer, each computed on its own (RenderDestProof.wrapped_pool_irrelevant and
+   wrapped_spec: the pool is irrelevant and the caller's writer is clean again after the caller's epilogue) *)
+Definition run_allw (cap : nat) (instrs : list bytes) : list bytes :=
+  let m := fold_left step instrs {| vals := []; nodes := []; ops := []; envl := []; jobsr := []; curlog := [] |} in
+  concat (map (fun p => let '(j, size, io) := p in
+                        let o := render_wrapped fsink fsink_step size cap html_escape (j_env _ j) (j_benv _ j) (j_senv _ j) (j_cnt _ j)
+                                                (j_cancel _ j) [] 0 (j_guard _ j) (j_body _ j) (j_sink0 _ j) in
+                        let '(d, de) := denote html_escape (j_env _ j) (j_benv _ j) (j_senv _ j) (j_cnt _ j) (j_cancel _ j) (Templ (j_guard _ j) (j_body _ j)) [] in
+                        [enc_res (wo_res o); enc_res (wo_fres o); wo_got o; enc_log (wo_log1 o ++ wo_log2 o);
+                         dec (N.of_nat (length (wo_log1 o))); dec (N.of_nat (wo_thru o));
+                         match io with
+                         | Some i => b2 (spec_wrap_okb d de (i_res i) (i_fres i) (i_got i) (firstn (i_nrender i) (i_log i))
+                                                       (skipn (i_nrender i) (i_log i)) (i_foreign i))
+                         | None => bs "-"
+                         end;
+                         d; enc_res de])
+              (rev (jobsr m))).
+
 Definition dispatch (f : bytes) (a : list bytes) : list bytes :=
   if is f "run" then
     match a with
     | c :: s :: fl :: instrs => run_all (numn c) (flag s) (flag fl) instrs
+    | _ => [bs "?"]
+    end
+  else if is f "runw" then
+    match a with
+    | c :: instrs => run_allw (numn c) instrs
     | _ => [bs "?"]
     end
   else if is f "escape" then [html_escape (nth 0 a [])]
